@@ -259,6 +259,14 @@ class Models:
             return None
         if name == "copy":
             return run.alloc(HList(o.items))
+        if name in ("ravel", "flatten"):
+            flat = []
+            for x in o.items:
+                if isinstance(x, Ref) and isinstance(run.obj(x), HList):
+                    flat.extend(run.obj(x).items)
+                else:
+                    flat.append(x)
+            return run.alloc(HList(flat))
         if name == "index":
             # first index equal to arg: result is an int constrained by a definitional axiom
             n = len(o.items)
